@@ -419,6 +419,33 @@ example : errOf (vectorBinop (V := Int) .add false .on ["job"]
     [([("job", "x")], 10)]
     [([("inst", "1"), ("job", "x")], 1), ([("inst", "2"), ("job", "x")], 2)]) = some .dupMatch := by decide
 
+/-! ### set operators -/
+
+/-- **set_and_unless_partition**: `l and r` and `l unless r` split the left-hand vector: every
+element of `l` is in exactly one of them (by whether its signature occurs on the right), and
+neither holds anything else. -/
+theorem set_and_unless_partition (mode : MatchMode) (names : List String) (lhs rhs : List (Labels × V))
+    (x : Labels × V) :
+    (x ∈ setBinop .and mode names lhs rhs ↔
+        x ∈ lhs ∧ signature mode names x.1 ∈ rhs.map (fun y => signature mode names y.1)) ∧
+    (x ∈ setBinop .unless mode names lhs rhs ↔
+        x ∈ lhs ∧ signature mode names x.1 ∉ rhs.map (fun y => signature mode names y.1)) := by
+  simp [setBinop]
+
+/-- **set_or_keeps_left**: `l or r` is `l` followed by the right-hand elements whose signature
+does not occur on the left. -/
+theorem set_or_keeps_left (mode : MatchMode) (names : List String) (lhs rhs : List (Labels × V)) :
+    setBinop .or mode names lhs rhs =
+      lhs ++ rhs.filter (fun y => !(lhs.map (fun x => signature mode names x.1)).contains (signature mode names y.1)) := by
+  simp [setBinop]
+
+example : setBinop (V := Int) .and .on ["job"] [([("job", "a")], 1), ([("job", "b")], 2)] [([("job", "b"), ("x", "y")], 9)]
+    = [([("job", "b")], 2)] := by decide
+example : setBinop (V := Int) .unless .on ["job"] [([("job", "a")], 1), ([("job", "b")], 2)] [([("job", "b"), ("x", "y")], 9)]
+    = [([("job", "a")], 1)] := by decide
+example : setBinop (V := Int) .or .on ["job"] [([("job", "a")], 1)] [([("job", "a"), ("x", "y")], 9), ([("job", "c")], 3)]
+    = [([("job", "a")], 1), ([("job", "c")], 3)] := by decide
+
 /-! ### the one place where a range query is *not* its instants: the error rule -/
 
 section errorRule
